@@ -83,11 +83,18 @@ Allowed(pbox, stack) ==
 ---------------------------------------------------------------------------
 (* TRANSCRIBED: iterator/contiguous.rs Cropped<I> over a colour sequence cs.  *)
 (* state [pos (items of cs consumed), x, y, w, h, rowSkip]                    *)
-CroppedNew(size, cropArea) ==
-  LET ca == Intersection(<<0, 0, size[1], size[2]>>, cropArea)         \* contiguous.rs:76
-      initialSkip == ca[2] * size[1] + ca[1]                          \* :77
+\* fixed = FALSE: the constructor as it was before the repair of D22 (a zero sized crop area is returned unchanged
+\* by Intersection, so its width can exceed the width of the stream: row_skip = size.width - crop.width underflowed)
+CroppedNewG(size, cropArea, fixed) ==
+  LET ca == Intersection(<<0, 0, size[1], size[2]>>, cropArea)         \* contiguous.rs:69
+      initialSkip == ca[2] * size[1] + ca[1]                          \* :75
+      w == IF fixed THEN Min(ca[3], size[1]) ELSE ca[3]               \* :73 crop_area.size.component_min(size)
+      h == IF fixed THEN Min(ca[4], size[2]) ELSE ca[4]
   IN [pos |-> initialSkip,                                             \* nth(initial_skip - 1) consumes initial_skip items
-      x |-> 0, y |-> 0, w |-> ca[3], h |-> ca[4], rowSkip |-> size[1] - ca[3]]
+      x |-> 0, y |-> 0, w |-> w, h |-> h, rowSkip |-> size[1] - w]
+CroppedNew(size, cropArea) == CroppedNewG(size, cropArea, TRUE)
+\* all fields of the machine are unsigned in the code (u32 / usize)
+CroppedUnsignedOK(st) == st.pos >= 0 /\ st.rowSkip >= 0 /\ st.w >= 0 /\ st.h >= 0
 \* one call of next(): <<item or <<>> for None, state'>>
 CroppedNext(st, cs) ==
   IF st.y >= st.h \/ st.w = 0 THEN << <<>>, st >>
